@@ -26,7 +26,8 @@ use std::collections::{BTreeMap, HashMap};
 
 /// "a.x" is a FLAT key of its own (Facts::set does not split the name; the backward executor
 /// stores every conclusion like that) whose name extends the key "a"
-const KEYS: [&str; 4] = ["a", "b", "c", "a.x"];
+/// the exhaustive alphabet uses the first four; the others occur in random sequences only
+const KEYS: [&str; 10] = ["a", "b", "c", "a.x", "d", "e", "g", "h", "k", "m"];
 
 /// value domain of the model: an integer, or an object with integer members
 #[derive(Clone, Debug, PartialEq, Eq, Hash, PartialOrd, Ord)]
@@ -89,6 +90,8 @@ enum FOp {
     Set(usize, MVal),
     /// set_nested("<key>.f", Integer(v))
     SetNested(usize, i64),
+    /// set_nested("<key>", Integer(v)): a path WITHOUT a dot (a plain top-level write)
+    SetTop(usize, i64),
     Remove(usize),
 }
 
@@ -100,6 +103,7 @@ impl FOp {
             FOp::Rollback => json!(["rollback"]),
             FOp::Set(k, v) => json!(["set", KEYS[*k], v.to_json()]),
             FOp::SetNested(k, v) => json!(["set_nested", format!("{}.f", KEYS[*k]), v]),
+            FOp::SetTop(k, v) => json!(["set_nested_with_an_undotted_path", KEYS[*k], v]),
             FOp::Remove(k) => json!(["remove", KEYS[*k]]),
         }
     }
@@ -112,13 +116,14 @@ impl FOp {
             "rollback" => FOp::Rollback,
             "set" => FOp::Set(key(a.get(1)?.as_str()?)?, MVal::from_json(a.get(2)?)?),
             "set_nested" => FOp::SetNested(key(a.get(1)?.as_str()?.strip_suffix(".f")?)?, a.get(2)?.as_i64()?),
+            "set_nested_with_an_undotted_path" => FOp::SetTop(key(a.get(1)?.as_str()?)?, a.get(2)?.as_i64()?),
             "remove" => FOp::Remove(key(a.get(1)?.as_str()?)?),
             _ => return None,
         })
     }
     fn written_key(&self) -> Option<usize> {
         match self {
-            FOp::Set(k, _) | FOp::SetNested(k, _) | FOp::Remove(k) => Some(*k),
+            FOp::Set(k, _) | FOp::SetNested(k, _) | FOp::SetTop(k, _) | FOp::Remove(k) => Some(*k),
             _ => None,
         }
     }
@@ -280,6 +285,17 @@ fn run_fcase(c: &FCase) -> (Option<(String, String, String)>, FObs) {
                         )),
                         obs,
                     );
+                }
+            }
+            FOp::SetTop(k, v) => {
+                // only for keys without a dot: then the path has one segment and the write is a
+                // plain top-level insert (facts.rs: "Simple key, just set it")
+                if !KEYS[*k].contains('.') {
+                    let r = facts.set_nested(KEYS[*k], Value::Integer(*v));
+                    model.insert(KEYS[*k].to_string(), MVal::Int(*v));
+                    if r.is_err() {
+                        return (Some((CL_EFFECT.into(), "set_nested-result".into(), format!("op #{} {:?}: set_nested with a one-segment path returned {:?}", i, op, r))), obs);
+                    }
                 }
             }
             FOp::Remove(k) => {
@@ -759,7 +775,7 @@ impl Check for C10 {
         "C10"
     }
     fn rule(&self) -> String {
-        "(b) Facts API, exhaustive: ALL sequences of length L (5 quick, 6 thorough) over the 20-operation alphabet begin / commit / rollback / set(k, 1 | {f:0}) / set_nested(k.f, 1 | 2) / remove(k), k in {a,b,c}, plus set / remove of the FLAT key \"a.x\" (a name that extends the key a), from 2 initial stores ({} and {a:{f:0}, b:0}); the whole store is compared with the stack-of-snapshots model after every operation, so every prefix (every shorter sequence) is checked too. random: lengths 6..=10 over the same alphabet with begin/commit/rollback weighted up. A sequence is non-trivial when it rolls back at least one frame in which the store had changed; distinct by (initial store, operations). (a) queries: the C09 generator (Horn KBs of 1..=8 rules from GRL text, chains to depth 6 with wrong-value conclusions, dead ends, cycles, parents with two sub-goals; 14 queries per KB; dfs/bfs/iterative; max_depth 0..=6; max_solutions 1 or 3); every answer `provable == false` is judged; non-trivial when some candidate rule of the goal is fireable in the reference closure (the attempt could derive something before failing). (a2) one in three of those queries is asked again over the same rules with 1-3 side-effect actions added to the parsed rules (Append to an array, Retract of a key, Set of an unrelated key, a method call that fails; before or after the rule's conclusions; the touched keys Aux.* occur in no condition; present before the query in 3/4 of the cases). (a3) one query in three is also asked negated (`NOT goal`, which fails exactly when the goal can be derived, i.e. after rules ran).".into()
+        "(b) Facts API, exhaustive: ALL sequences of length L (5 quick, 6 thorough) over the 20-operation alphabet begin / commit / rollback / set(k, 1 | {f:0}) / set_nested(k.f, 1 | 2) / remove(k), k in {a,b,c}, plus set / remove of the FLAT key \"a.x\" (a name that extends the key a), from 2 initial stores ({} and {a:{f:0}, b:0}); the whole store is compared with the stack-of-snapshots model after every operation, so every prefix (every shorter sequence) is checked too. random: lengths 6..=10 over the same alphabet plus set_nested with an undotted path (a plain top-level write), begin/commit/rollback weighted up; one sequence in 5 has 12..=40 operations over 10 keys (a frame records many distinct keys before it closes). A sequence is non-trivial when it rolls back at least one frame in which the store had changed; distinct by (initial store, operations). (a) queries: the C09 generator (Horn KBs of 1..=8 rules from GRL text, chains to depth 6 with wrong-value conclusions, dead ends, cycles, parents with two sub-goals; 14 queries per KB; dfs/bfs/iterative; max_depth 0..=6; max_solutions 1 or 3); every answer `provable == false` is judged; non-trivial when some candidate rule of the goal is fireable in the reference closure (the attempt could derive something before failing). (a2) one in three of those queries is asked again over the same rules with 1-3 side-effect actions added to the parsed rules (Append to an array, Retract of a key, Set of an unrelated key, a method call that fails; before or after the rule's conclusions; the touched keys Aux.* occur in no condition; present before the query in 3/4 of the cases). (a3) one query in three is also asked negated (`NOT goal`, which fails exactly when the goal can be derived, i.e. after rules ran).".into()
     }
     fn assumptions(&self) -> Vec<String> {
         vec![
@@ -829,17 +845,34 @@ impl Check for C10 {
                     st.count("stopped_by_time_budget");
                     break;
                 }
-                let l = 6 + rng.below(5);
+                // one sequence in 5 is long and wide: 12..=40 operations over 10 keys (a frame
+                // may record many distinct keys before it closes)
+                let wide = rng.chance(1, 5);
+                let l = if wide { 12 + rng.below(29) } else { 6 + rng.below(5) };
                 let init = rng.pick(inits_r).clone();
                 let ops: Vec<FOp> = (0..l)
                     .map(|_| {
-                        if rng.chance(2, 5) {
+                        if rng.chance(if wide { 1 } else { 2 }, 5) {
                             alpha_r[rng.below(3)].clone()
+                        } else if wide {
+                            let k = rng.below(KEYS.len());
+                            match rng.below(6) {
+                                0 | 1 => FOp::Set(k, MVal::Int(1 + rng.below(3) as i64)),
+                                2 => FOp::Set(k, MVal::Obj(BTreeMap::from([("f".to_string(), 0)]))),
+                                3 => FOp::SetNested(k, 1 + rng.below(2) as i64),
+                                4 => FOp::SetTop(k, 5 + rng.below(3) as i64),
+                                _ => FOp::Remove(k),
+                            }
+                        } else if rng.chance(1, 8) {
+                            FOp::SetTop(rng.below(3), 5 + rng.below(3) as i64)
                         } else {
                             alpha_r[3 + rng.below(n - 3)].clone()
                         }
                     })
                     .collect();
+                if wide {
+                    st.count("frames::wide_sequences(12..=40 operations over 10 keys)");
+                }
                 check_fcase(&FCase { init, ops }, st);
             }
         });
